@@ -15,6 +15,7 @@ import Golib.Value.Facts
 import Golib.Value.DecWF
 import Golib.Value.MapRefine
 import Golib.Value.Stream
+import Golib.Value.Local
 
 namespace C02
 open Value Prim
@@ -58,19 +59,24 @@ theorem decoded_tag_is_first_byte (f t : Nat) (bs : Bytes) (v : Value) (r : Byte
 theorem unknown_tag_rejected (f t : Nat) (bs : Bytes) (h : Ctor.ofCode t = none) :
     decV f (t :: bs) = none := decV_unknown_tag f t bs h
 
-/-- list items come back in their original order (equality of the item *lists*) -/
+/-- list items come back in their original order: the decoded value is the list of the *same
+    sequence* of items (equality of the item lists, not of their sets) -/
 theorem list_order_kept (xs : List Value) (r : Bytes) (h : WFV (.list xs)) :
-    ∃ ys, decode (encV (.list xs) ++ r) = some (.list ys, r) ∧ ys = xs :=
-  ⟨xs, decode_encV _ r h, rfl⟩
+    decode (encV (.list xs) ++ r) = some (.list xs, r) := decode_encV _ r h
 
 /-- map entries come back in their original (insertion) order, for both kinds of map -/
 theorem map_order_kept (kvs : List (Bytes × Value)) (r : Bytes) (h : WFV (.map kvs)) :
-    ∃ kvs', decode (encV (.map kvs) ++ r) = some (.map kvs', r) ∧ kvs' = kvs :=
-  ⟨kvs, decode_encV _ r h, rfl⟩
+    decode (encV (.map kvs) ++ r) = some (.map kvs, r) := decode_encV _ r h
 
 theorem imap_order_kept (kvs : List (Int × Value)) (r : Bytes) (h : WFV (.imap kvs)) :
-    ∃ kvs', decode (encV (.imap kvs) ++ r) = some (.imap kvs', r) ∧ kvs' = kvs :=
-  ⟨kvs, decode_encV _ r h, rfl⟩
+    decode (encV (.imap kvs) ++ r) = some (.imap kvs, r) := decode_encV _ r h
+
+/-- and order matters to the codec: two lists / maps with the same entries in another order have
+    different encodings (so "equal content in the original order" is not implied by a weaker
+    multiset round trip) -/
+theorem order_is_encoded :
+    encV (.list [.null, .bool true]) ≠ encV (.list [.bool true, .null]) ∧
+    encV (.map [([1], .null), ([2], .null)]) ≠ encV (.map [([2], .null), ([1], .null)]) := by decide
 
 /-- the three container loops on their own (other wire formats reuse them: C03, C08) -/
 theorem list_loop_roundtrip (xs : List Value) (f : Nat) (r : Bytes) (h : WFVs xs) (hf : szVs xs ≤ f) :
@@ -136,6 +142,14 @@ theorem list_guard_never_rejects_decodable (f n : Nat) (bs : Bytes) (xs : List V
 theorem every_value_occupies_a_byte (f : Nat) (bs : Bytes) (v : Value) (r : Bytes) (h : decV f bs = some (v, r)) :
     r.length < bs.length := decV_consumes f bs v r h
 
+/-- for ANY input and any fuel (not only encodings of well-formed values): a successful decode
+    depends only on the bytes it consumed — the input is `consumed ++ rest`, and with any other rest
+    (more bytes arriving later on a connection, the next value of a stream, nothing) the same value
+    is decoded and that rest is left.  The decoder never looks ahead and keeps nothing back. -/
+theorem decode_depends_only_on_consumed_bytes (f : Nat) (bs : Bytes) (v : Value) (r : Bytes)
+    (h : decV f bs = some (v, r)) : ∃ a, bs = a ++ r ∧ ∀ c, decV f (a ++ c) = some (v, c) :=
+  decV_locality f bs v r h
+
 /-! ### the association lists are what the real tables hold (link to C09) -/
 
 /-- `MapValue.Read` creates a `StringKeyLinkedMap` and `Put`s the decoded pairs in order.  For every
@@ -197,6 +211,19 @@ example : decode [70, 1, 2, 20, 2, 255, 127, 80, 1, 1, 1, 107, 50, 2, 104, 105, 
     some (.list [.dec (-129), .map [([107], .text [104, 105])]], [9]) := by rfl
 
 example : ¬ WFV (.map [([1], .null), ([1], .null)]) := by decide
+/-- non-vacuity of the C09 link: a regular descriptor exists, and the theorem yields a concrete table -/
+example : ∃ pairs : List (Bytes × Value), pairs.length = 2 ∧
+    HMap.LMap.abs (fun (k : Bytes) => k.length)
+      (HMap.LMap.run (fun (k : Bytes) => k.length) (fun n => n * 3 / 4)
+        ({ comb := fun _ b => b, veq := fun _ _ => false } : HMap.Desc Bytes Value)
+        (HMap.LMap.new (fun n => n * 3 / 4) 101) (readOps pairs)).1
+      = { ents := [([1], .null), ([2], .bool true)], max := 0 } :=
+  let ⟨pairs, hl, ha, _⟩ := map_read_is_table_history (fun k => k.length) (fun n => n * 3 / 4)
+    { comb := fun _ b => b, veq := fun _ _ => false }
+    (fun _ => rfl) 101 100 2 (encKVs [([1], .null), ([2], .bool true)]) [([1], .null), ([2], .bool true)] [] (by rfl)
+  ⟨pairs, hl, ha⟩
+example : (runCalls () [.decode [99], .encode (.dec 5), .decode (encV (.dec 5) ++ [7])]).length = 3 := by rfl
+example : decV 9 ([70, 1, 2, 0, 10, 1] ++ [5, 5]) = some (.list [.null, .bool true], [5, 5]) := by rfl
 example : decodeMany 3 (encVs [.dec 5, .list [.null], .text [7]] ++ [9, 9]) = some ([.dec 5, .list [.null], .text [7]], [9, 9]) := by rfl
 example : foldPut ([] : List (Bytes × Value)) [([1], .null), ([2], .bool true), ([1], .dec 5)] = [([1], .dec 5), ([2], .bool true)] := by
   rfl
